@@ -37,6 +37,8 @@ cases={
 "wrappedok": (ctl("wrappedok","// @Method(GET)\n// @Route(/x)\n// @Query(firstName)\n// @Query(lastName)\nfunc (c *C) Search(\n\tfirstName string,\n\tlastName struct {\n\t\tA string\n\t},\n) (\n\tstring,\n\terror,\n) {\n\treturn \"\", nil\n}\n"),"reject"),
 "varnames": (ctl("varnames","// @Method(GET)\n// @Route(/users/{id})\n// @Path(id)\nfunc (c *C) GetUser(id string) error { return nil }\n\n// @Method(DELETE)\n// @Route(/users/{userId})\n// @Path(userId)\nfunc (c *C) DeleteUser(userId string) error { return nil }\n"),"any"),
 "shapegeneric": (ctl("shapegeneric","type GNode[T any] struct {\n\tValue T\n\tNext  *GNode[T]\n}\n\n// @Method(POST)\n// @Route(/x)\n// @Body(b)\nfunc (c *C) M(b GNode[string]) error { return nil }\n"),"any"),
+"conflictanderror": (ctl("conflictanderror","// @Method(GET)\n// @Route(/items/{id})\n// @Query(id)\nfunc (c *C) ByID(id string) error { return nil }\n\n// @Method(GET)\n// @Route(/items/{name})\n// @Path(name)\nfunc (c *C) ByName(name string) error { return nil }\n"),"reject"),
+"urlparamsubstring": (ctl("urlparamsubstring","// @Method(GET)\n// @Route(/items/{item})\n// @Query(item)\nfunc (c *C) M(item string) error { return nil }\n"),"reject"),
 "warnonly": (ctl("warnonly","// @Method(GET)\n// @Route(/x)\nfunc (c *C) M() error { return nil }\n\n// @Method(GET)\n// @Route(/x)\nfunc (c *C) M2() error { return nil }\n"),"accept"),
 }
 for n,(src,exp) in cases.items():
